@@ -143,8 +143,18 @@ void k_time_fresh(struct ktime *t, const char *name)
 {
 	struct ktime n;
 
-	n.sec = sx_long(name, 0, (1L << 31) - 1);
-	n.nsec = sx_long(name, 0, 999999999);
+	/* k_clock_symbolic: 1 = (sec,nsec) both unknown; 2 = within the current second, nsec unknown;
+	 * 3 = whole seconds, sec unknown */
+	if (k_clock_symbolic == 2) {
+		n.sec = k_now.sec;
+		n.nsec = sx_long(name, 0, 999999999);
+	} else if (k_clock_symbolic == 3) {
+		n.sec = sx_long(name, 0, (1L << 31) - 1);
+		n.nsec = 0;
+	} else {
+		n.sec = sx_long(name, 0, (1L << 31) - 1);
+		n.nsec = sx_long(name, 0, 999999999);
+	}
 	sx_assume(k_time_le(&k_now, &n));
 	k_now = n;
 	*t = n;
@@ -804,6 +814,8 @@ static void collect_ready(struct kwait_info *wi, struct kready *kr)
 	}
 }
 
+static int earliest_timerfd(struct kwait_info *wi, struct ktime *out);
+
 static int kwait_pred(void *arg)
 {
 	struct kwait_info *wi = arg;
@@ -858,10 +870,15 @@ static int kwait(struct kwait_info *wi, struct epoll_event *evs)
 		errno = EINTR;
 		return -1;
 	}
-	if (k_clock_symbolic)
-		k_time_fresh(&entry, "kwait-entry");
-	else
-		entry = k_now;
+	{
+		struct ktime tmp;
+		/* time passes between the last reading and the wait: only observable
+		 * through an armed timer descriptor */
+		if (k_clock_symbolic && wi->epfd >= 0 && earliest_timerfd(wi, &tmp))
+			k_time_fresh(&entry, "kwait-entry");
+		else
+			entry = k_now;
+	}
 	if (k_wait_entry_hook)
 		k_wait_entry_hook(wi);
 	if (eintr_now())
